@@ -40,6 +40,10 @@ KEYTYPES = ["basic-key", "basic-key", "basic-key", "identifier",
             "zcsim.simdt.keytype_0"]
 
 
+ODD_LINES = ["# page\x0cbreak", "#\u2028x", "# a\x85b", "# v\x0bt", "# c\rr",
+             "# \x1c\x1d\x1e", "#\u2029", "# tab\there"]
+
+
 class Unsatisfiable(Exception):
     """The schema requires an infinitely nested section (generator waste)."""
 
@@ -512,6 +516,10 @@ def decorate(rng, lines, defines=True):
         if rng.random() < 0.06:
             out.append({"t": "# a comment <not> a %section", "role":
                         "comment"})
+        if rng.random() < 0.03:
+            # characters that some line splitters (str.splitlines) treat as
+            # line boundaries although the resource has one line here
+            out.append({"t": rng.choice(ODD_LINES), "role": "comment"})
         if defines and rng.random() < 0.07:
             nm = "d%d" % len(defined)
             val = rng.choice(["dv", "two words", "$$money", ""]
